@@ -221,9 +221,10 @@ Proof.
 Qed.
 
 Lemma right_pad_cases s :
-  (right_pad s = Err) \/ (exists t, right_pad s = Ok t /\ length t = record_length).
+  (right_pad s = Err) \/ (exists t, right_pad s = Ok t /\ record_length <= length t).
 Proof.
-  unfold right_pad. destruct (Nat.ltb_spec record_length (length s)) as [H|H]; [now left|right].
+  unfold right_pad. cbv zeta. pose proof (rune_count_le s) as Hr.
+  destruct (Nat.ltb_spec record_length (rune_count s)) as [H|H]; [now left|right].
   eexists. split; [reflexivity|]. rewrite app_length. unfold spaces. rewrite repeat_length. lia.
 Qed.
 
